@@ -11,6 +11,7 @@ static void run(const eng::Raw& raw, eng::Ctx& ctx)
 	const size_t leaves0 = MT::VerifLeafCacheSize(), internal0 = MT::VerifInternalCacheSize();
 #endif
 	mt::Ops<C> o(ctx, true);
+	o.structural = (!raw.empty() && raw[0][2] % 3 == 0);
 	for (size_t i = 1; i < raw.size() && !o.failed; ++i) o.run_step(raw[i]);
 	ctx.nontrivial(o.destroyedSharing);
 	for (auto& s : o.ops) ctx.tag("op:" + s);
@@ -29,7 +30,7 @@ static void run(const eng::Raw& raw, eng::Ctx& ctx)
 #ifdef LIBVATA_VERIF
 	const size_t leaves1 = MT::VerifLeafCacheSize(), internal1 = MT::VerifInternalCacheSize();
 	// Project may leave unreferenced intermediate nodes by design: the size law is stated for construction, copy and apply
-	if (o.projected) { ctx.tag("size-law-skipped:history-with-Project"); ctx.count("store_size_checks_skipped"); }
+	if (o.projected) { ctx.tag("size-law-skipped:history-with-structural-operations"); ctx.count("store_size_checks_skipped"); }
 	else if (leaves1 != leaves0 || internal1 != internal0)
 		ctx.fail(leaves1 + internal1 > leaves0 + internal0 ? "mtbdd:store:nodes-left" : "mtbdd:store:nodes-missing",
 			"node store has " + std::to_string(leaves1) + " leaves / " + std::to_string(internal1) + " internal nodes after destroying every handle, " +
